@@ -343,7 +343,11 @@ void sched_point(const char* what, uint64_t arg = 0) {
 // (deadlock) or, with a deadline, when the deadline has been reached.
 enum Progress { MOVED, DEADLINE, STUCK };
 Progress let_world_move(bool has_deadline, uint64_t deadline) {
-  if (child_ready_to_step()) {
+  bool was_alive = g.ch.alive;
+  bool ready = child_ready_to_step();
+  // (waking a stopped child can be the end of it: a fatal signal sent while it was stopped acts now)
+  if (!ready && was_alive && !g.ch.alive) return MOVED;
+  if (ready) {
     unsigned k = 1 + choose(4, "blocked.steps");
     for (unsigned i = 0; i < k && child_ready_to_step() && !g.gave_up; i++) child_step();
     if (has_deadline && g.clock >= deadline) return DEADLINE;
